@@ -132,6 +132,7 @@ def run(ctx):
         if clause.startswith("C20.Harness") or clause.startswith("C20.Protocol"):
             raise tlc.MachineryError("harness inconsistency %s in trace %d: %s" % (clause, tid, meta[tid]))
         ctx.report(clause, "%s" % meta[tid], {"meta": meta[tid], "trace": traces[tid][-12:], "event": l})
+    ctx.require_ops("Trace_Handles", ["begin", "open", "io", "fault", "close", "end"])
     excs = {}
     for m in meta:
         excs[m["exc"]] = excs.get(m["exc"], 0) + 1
